@@ -1,4 +1,6 @@
 """C12: assembler output: bytes, blocks and CFG match the assembly text."""
+import random
+
 import gtirb
 
 from .. import dwarfref, irview, vocab
@@ -218,8 +220,17 @@ def gen_case(rng, tier, index, programs_only=False):
                 lines.append({"cfi": [".cfi_endproc", []]})
                 cfi_open = False
         elif in_text and c["implicit_cfi"] and fmt == "elf":
+            sandwich = random.Random(
+                f"sandwich:{index}:{len(lines)}").random() < 0.12
+            if sandwich:
+                # the directive stands between two empty strings (each is
+                # its NUL, in a typed block of its own)
+                lines.append({"d": "string", "s": ""})
             lines.append({"cfi": [".cfi_def_cfa_offset",
                                   [rng.randrange(8, 64)]]})
+            if sandwich:
+                lines.append({"d": "string", "s": ""})
+                continue
             if rng.random() < 0.3 and nlab < len(planned):
                 lines.append({"l": planned[nlab]})
 
